@@ -40,6 +40,14 @@ def src(node: Optional[ast.AST]) -> str:
         return "<%s>" % type(node).__name__
 
 
+def seq(node: ast.AST) -> int:
+    """Position of *node* in the source order of the analysis view (use this, not lineno, to compare positions)."""
+    v = getattr(node, "_seq", None)
+    if v is not None:
+        return v
+    return getattr(node, "lineno", 0) * 10000 + getattr(node, "col_offset", 0)
+
+
 def dotted(node: ast.AST) -> Optional[str]:
     """'a.b.c' for Name/Attribute chains, None for anything else."""
     parts = []
@@ -147,6 +155,9 @@ class ClassInfo:
     methods: Dict[str, List[FuncInfo]] = field(default_factory=dict)  # name -> defs (property getter/setter share a name)
 
 
+_VOCAB = None
+
+
 class Module:
     def __init__(self, rel: str, text: str):
         self.rel = rel
@@ -156,6 +167,21 @@ class Module:
         self.functions: Dict[str, FuncInfo] = {}
         self.imports: Dict[str, str] = {}   # local name -> dotted origin
         self._index()
+        # analysis view: interchangeable idioms normalised, helpers the rules do not know by name looked through (see inline.py)
+        from .inline import canonicalise, inline_module, load_vocab
+        global _VOCAB
+        if _VOCAB is None:
+            _VOCAB = load_vocab()
+        canonicalise(self.tree, eq_none=not rel.startswith("BPTK_Py/sddsl/"))
+        self.inlined_calls = inline_module(self.tree, _VOCAB) if _VOCAB else 0
+        # execution/source order of the *view* (inlined statements keep the line numbers of their helper, so lineno is for reporting only)
+        k = 0
+        stack = [self.tree]
+        while stack:
+            n = stack.pop()
+            n._seq = k
+            k += 1
+            stack.extend(reversed(list(ast.iter_child_nodes(n))))
 
     def _index(self) -> None:
         for n in ast.walk(self.tree):
@@ -273,9 +299,12 @@ class Index:
         return m.functions.get(qual) if m else None
 
     def all_funcs(self, prefix: str = "") -> Iterator[FuncInfo]:
+        """Every function of the package, except helpers that were looked through at every one of their call sites (inline.py)."""
         for rel in sorted(self.modules):
             if rel.startswith(prefix):
                 for q in self.modules[rel].functions.values():
+                    if getattr(q.node, "_absorbed", False):
+                        continue
                     yield q
 
     def all_classes(self, prefix: str = "") -> Iterator[ClassInfo]:
